@@ -74,7 +74,8 @@ def gen(rng, idx, tier, seed):
             'comments': [str(x) for x in rng.permutation(COMMENTS)[:ncom]],
             'time_interval': int(rng.choice([1, 10, 60])),
             # the independent variable stored as integer seconds
-            'time_dtype': str(rng.choice(['d', 'd', 'i']))}
+            'time_dtype': str(rng.choice(['d', 'd', 'i'])),
+            'reused_path': bool(rng.random() < 0.2)}
 
 
 def build(spec):
@@ -294,6 +295,20 @@ def run(spec, res):
     longcode = any(len(str(abs(v['code']))) > 7 for v in spec['vars'])
     with harness.casedir() as d:
         p1 = os.path.join(d, 'a.ict')
+        if spec.get('reused_path'):
+            # the output path held a netCDF file that this process has
+            # already opened by auto-detection
+            try:
+                import netCDF4
+                ds = netCDF4.Dataset(p1, 'w', format='NETCDF3_CLASSIC')
+                ds.createDimension('x', 2)
+                ds.createVariable('v', 'f4', ('x',))[:] = [1, 2]
+                ds.close()
+                pnc.pncopen(p1).close()
+                os.remove(p1)
+                res.facet('reused-path')
+            except Exception:
+                res.note('reused-path-setup-failed')
         try:
             o = ncf2ffi1001(f, p1)
             o.close()
